@@ -54,6 +54,54 @@ fn read_as_constructor_index(x: u32, encoded: &[u8]) -> Result<(), String> {
     }
 }
 
+/// the writing side of the same: a constructor index goes out as the var-u32 of the index, at top level of a version-0
+/// enum and inside chunk 0 of an enum that has evolution steps of its own
+fn write_as_constructor_index(x: u32) -> Result<(), String> {
+    thread_local! {
+        static V0: desert::adt::AdtMetadata = desert::adt::AdtMetadata::new(vec![desert::Evolution::InitialVersion]);
+        static V1: desert::adt::AdtMetadata = desert::adt::AdtMetadata::new(vec![desert::Evolution::InitialVersion, desert::Evolution::FieldRemoved { name: "z".into() }]);
+    }
+    let mut want = Vec::new();
+    var_u32(x, &mut want);
+    let plain = V0.with(|m| {
+        let mut ctx = desert::SerializationContext::new(Vec::new());
+        let mut s = desert::adt::AdtSerializer::new_v0(m, &mut ctx);
+        s.write_constructor(x, |c| {
+            c.write_u8(0x5e);
+            Ok(())
+        })?;
+        s.finish()?;
+        Ok::<_, desert::Error>(ctx.into_output())
+    });
+    let mut expect = vec![0u8];
+    expect.extend_from_slice(&want);
+    expect.push(0x5e);
+    match &plain {
+        Ok(b) if *b == expect => {}
+        other => return Err(format!("u32 {x} written as the constructor index of a version-0 enum gives {other:02x?}, the format says {expect:02x?}")),
+    }
+    let evolved = V1.with(|m| {
+        let mut ctx = desert::SerializationContext::new(Vec::new());
+        let mut s = desert::adt::AdtSerializer::new(m, &mut ctx);
+        s.write_constructor(x, |c| {
+            c.write_u8(0x5e);
+            Ok(())
+        })?;
+        s.finish()?;
+        Ok::<_, desert::Error>(ctx.into_output())
+    });
+    // version 1, chunk 0 of (index + 1) bytes, removed-field entry (-2, the name "z"), then chunk 0
+    let mut expect = vec![1u8];
+    vmodel::refcodec::var_i32(want.len() as i32 + 1, &mut expect);
+    expect.extend_from_slice(&[0x03, 0x02, b'z']);
+    expect.extend_from_slice(&want);
+    expect.push(0x5e);
+    match &evolved {
+        Ok(b) if *b == expect => Ok(()),
+        other => Err(format!("u32 {x} written as the constructor index of an enum with a step of its own gives {other:02x?}, the format says {expect:02x?}")),
+    }
+}
+
 pub fn check_u32(x: u32, b: &mut Bufs) -> Result<(), String> {
     b.vec.clear();
     b.bm.clear();
@@ -70,6 +118,7 @@ pub fn check_u32(x: u32, b: &mut Bufs) -> Result<(), String> {
     let len = b.vec.len();
     if tails(x).len() > 2 || x % 5 == 0 {
         read_as_constructor_index(x, &b.vec[..len])?;
+        write_as_constructor_index(x)?;
     }
     for &tail in tails(x) {
         b.vec.truncate(len);
